@@ -20,6 +20,16 @@ CHECKS = {
     technique="TLA+ channel spec (Msg.tla); TLC-enumerated message universe replayed on the real bytes()/deserialize_*; recorded real round trips validated by TLC (MsgTrace)",
     text="TLC enumerates every message type with field-wise boundary values (u32 as limbs, i32 sign boundaries, all 64 registers) and every undefined-pattern of arrays of length 0..3 (quick) / 0..4 (thorough) and explores the Send/Deliver channel with the invariant delivered = sent; each universe entry is replayed on the real code and the projection of the deserialised message must equal the abstract message that was sent (not the ctypes-truncated object); random messages with wide values and arrays to length 64 are recorded and validated by TLC.",
     note="Trusted: TLC, harness/eng_msg.py projection. A defect found by this check (undefined entries -> 0) was repaired in /repo commit f486e13."),
+ "C16": dict(
+    engine="range", category="model_checking", design="5 C16",
+    technique="TLA+ range predicate over wide (limb) integers (Range.tla); TLC-enumerated out-of-range vectors with the outcome the spec allows, replayed on the real encoder via direct construction and via the text assembler",
+    text="TLC explores the machine ir -> bytes|rejected of spec/RangeMC.tla: for every class of every flavour and every operand position one value just outside or far outside the representable range (register index, 8-bit immediate, 32-bit integer/address, app id; values up to 2^64 as base-2^15 limbs) plus in-range boundary controls; the invariant is that bytes are only produced for in-range operands. Every vector is replayed on the real code through direct construction and through the text assembler up to bytes(Subroutine); an out-of-range vector that yields bytes is a violation and the report shows the different program those bytes decode to.",
+    note="Trusted: TLC, harness/eng_range.py. The universal truncation found by this check was repaired in /repo (fix: commit 5ea1787). SDK entry points are exercised by the SDK-level checks."),
+ "C17": dict(
+    engine="text", category="model_checking", design="5 C17",
+    technique="TLA+ canonical text form (Text.tla) with print-injectivity checked by TLC; TLC-enumerated vectors printed by the real printer and parsed by the real parser; text->binary->text on grouped subroutines",
+    text="TLC explores ir -> text -> back over field-wise vectors of every class of every flavour (negative integers, entries, slices) and checks that the canonical text determines the instruction; for each vector the real str(instr) and the canonical text are parsed by the real parser with a long-lived and a fresh flavour object (another flavour being constructed in between) and must give an equal instruction of the same class; groups of 16 instructions go through text -> binary -> text.",
+    note="Trusted: TLC, harness/eng_text.py; the real printer is judged only by the real parser."),
 }
 
 REASON_TODO = "check not built yet (work in progress; see DESIGN.md section 9)"
